@@ -524,9 +524,62 @@ def run_spill_e2e(rep: Report, tier: str, d: Driver) -> dict:
 # ----------------------------------------------------------------------------- findRecursionPoints
 
 
+def graph_program_check(d: Driver, g: dict, version: int = 6):
+    """A program whose call graph is `g` (nodes reachable from node 0): routine a computes
+    f_a(n) = n * (a + 2) + [n > 0] * sum over callees c of f_c(n - 1), reading its parameter and a local AFTER the calls -
+    wrong recursion points lose them.  Returns None when the real TEAL computes f_0(3), else a description."""
+    P = pt()
+    nodes = sorted(g)
+    if not nodes:
+        return None
+    sys.setrecursionlimit(max(sys.getrecursionlimit(), 20000))
+    memo = {}
+
+    def f(a, n):
+        if (a, n) not in memo:
+            memo[(a, n)] = (n * (a + 2) + (sum(f(c, n - 1) for c in g[a]) if n > 0 else 0)) % 2 ** 64
+        return memo[(a, n)]
+    subs = {}
+
+    def make(a):
+        def impl(n):
+            x = P.ScratchVar(P.TealType.uint64)
+            acc = P.ScratchVar(P.TealType.uint64)
+            calls = [acc.store(acc.load() + subs[c](n - P.Int(1))) for c in g[a]]
+            return P.Seq(x.store(n * P.Int(a + 2)), acc.store(P.Int(0)), P.If(n > P.Int(0)).Then(P.Seq(*calls)) if calls else P.Seq(),
+                         acc.load() + x.load() + n - n)
+        impl.__name__ = f"r{a}"
+        return P.Subroutine(P.TealType.uint64)(impl)
+    for a in nodes:
+        subs[a] = make(a)
+    depth = min(len(nodes) + 1, 6) if sum(len(v) for v in g.values()) <= 8 else 3
+    want = f(nodes[0], depth)
+    try:
+        from families import quiet_traces
+        with quiet_traces():
+            teal = P.compileTeal(P.Return(subs[nodes[0]](P.Int(depth)) == P.Int(want)), P.Mode.Application, version=version,
+                                 optimize=P.OptimizeOptions(scratch_slots=False, frame_pointers=False if version >= 8 else None))
+    except Exception as e:  # noqa: BLE001
+        return None if "recursion" in str(e).lower() else f"does not compile: {type(e).__name__}: {str(e)[:120]}"
+    d.ask("ctx cg (ctx app %d (args) (group (txn (Sender (b 00)))) 0 (global) 0 (gstate))" % version)
+    a = d.ask(f"teal tg {teal.encode().hex()}")
+    if not a.startswith("ok"):
+        return "the reference AVM cannot parse the TEAL: " + a
+    out = d.ask("exec tg cg 400000")
+    if out.startswith("done u1"):
+        return None
+    if "budget" in out or out.startswith("outOfFuel") or "overflow" in out:
+        return None
+    return f"call graph {g}: f_0({depth}) should be {want}; the program (it approves iff its result equals that) gives `{out[:80]}`"
+
+
 def run_recpoints_tie(rep: Report, tier: str, d: Driver) -> dict:
     pt()
-    from pyteal.compiler.subroutines import findRecursionPoints, graph_search
+    from pyteal.compiler.subroutines import findRecursionPoints
+    try:
+        from pyteal.compiler.subroutines import graph_search
+    except ImportError:        # an internal helper: its absence is not a finding (findRecursionPoints is what matters)
+        graph_search = None
 
     r = rng("c02-recpoints")
     graphs = []
@@ -552,7 +605,8 @@ def run_recpoints_tie(rep: Report, tier: str, d: Driver) -> dict:
     for g, a in zip(graphs, answers):
         real = findRecursionPoints({k: set(v) for k, v in g.items()})
         # graph_search directly as well
-        direct = {k: sorted(c for c in g[k] if graph_search({x: set(y) for x, y in g.items()}, c, k)) for k in g}
+        realn0 = {k: sorted(v) for k, v in real.items()}
+        direct = {k: sorted(c for c in g[k] if graph_search({x: set(y) for x, y in g.items()}, c, k)) for k in g} if graph_search else realn0
         m = parse_graph_answer(a)
         realn = {k: sorted(v) for k, v in real.items()}
         if any(realn.values()):
@@ -560,7 +614,18 @@ def run_recpoints_tie(rep: Report, tier: str, d: Driver) -> dict:
         if m is not None and {k: sorted(v) for k, v in m.items()} == realn == direct:
             agree += 1
         elif (bad := bad + 1) <= 3:
-            rep.violation("findRecursionPoints differs from the model", {"kind": "c02-recpoints", "graph": g, "real": realn, "direct": direct, "model": a}, no_input=True)
+            # search for an input of the PROPERTY: a program with this call graph, executed
+            gg = {k: list(v) for k, v in g.items()}
+            why = None
+            for start in sorted(gg):
+                ren = {start: 0}
+                for k in sorted(gg):
+                    ren.setdefault(k, len(ren))
+                why = graph_program_check(d, {ren[k]: [ren[c] for c in v] for k, v in gg.items()})
+                if why:
+                    break
+            rep.violation("findRecursionPoints differs from the model" + (f"; {why}" if why else ""),
+                          {"kind": "c02-recpoints", "graph": g, "real": realn, "direct": direct, "model": a, "program": why}, no_input=why is None)
     # graph_search itself, on (start, end) pairs: all pairs for the small graphs, sampled otherwise
     queries = []
     for g in graphs:
@@ -571,7 +636,9 @@ def run_recpoints_tie(rep: Report, tier: str, d: Driver) -> dict:
         if len(nodes) > 3:
             pairs = [(a, a) for a in r.sample(nodes, 2)] + r.sample(pairs, 4)
         queries += [(g, a, b) for a, b in pairs]
-    gs = d.ask_many([f"c02-gsearch {graph_word(g)} {a} {b}" for g, a, b in queries])
+    if graph_search is None:
+        queries = []
+    gs = d.ask_many([f"c02-gsearch {graph_word(g)} {a} {b}" for g, a, b in queries]) if queries else []
     gs_agree = 0
     gs_true = 0
     gs_bad = 0
